@@ -632,3 +632,15 @@ print('NOT-REPRODUCED'); sys.exit(0)
 '''
 
 PROBES = PROBES + [("shared_parameters shares per class, not per class name", SHARED_REPLAY)]
+
+
+# an object whose constructor failed half-way is still an instance: its namespace must hand out instance
+# copies, which it does only once it is marked initialized (verified for C14)
+_c12_base_init = contracts
+
+
+def contracts():
+    from contracts import c14 as _c14
+    c = _c14.init_block_contract()
+    c.prop = "C12"
+    return _c12_base_init() + [c]
